@@ -137,9 +137,9 @@ pub fn arr_bool<const N: usize>() -> [bool; N] {
 #[macro_export]
 macro_rules! cover {
     ($cond:expr, $msg:literal) => {
-        #[cfg(kani)]
+        #[cfg(all(kani, not(verif_nocover)))]
         kani::cover!($cond, $msg);
-        #[cfg(not(kani))]
+        #[cfg(any(not(kani), verif_nocover))]
         let _ = &$cond;
     };
 }
